@@ -137,6 +137,9 @@ def classify_death(rc, stderr):
     return f"exit:{rc}"
 
 
+TIMEOUT_BUDGET = {"left": 6}     # per check run: a code change that makes the library hang must cost minutes, not hours
+
+
 def run_lines(exe, lines, timeout_per_line=0.05, min_timeout=30, setup=None, env=None, pre=None):
     """Feed one operation per line to a harness that answers one line per operation (flushing). A death of the
     harness is a *result*: the line it died on gets `CRASH <class>` and the run resumes after it (re-sending the
@@ -148,6 +151,11 @@ def run_lines(exe, lines, timeout_per_line=0.05, min_timeout=30, setup=None, env
     cmd = (pre or []) + [str(exe)]
     guard = 0
     while pos < len(lines):
+        if TIMEOUT_BUDGET["left"] <= 0:
+            # enough hangs have been observed (each is already reported with the line it hung on); the rest is not executed
+            while len(outs) < len(lines):
+                outs.append("CRASH too-many-crashes (timeout budget of this run exhausted)")
+            break
         chunk = lines[pos:]
         inp = "\n".join(setup + chunk) + "\n"
         to = max(min_timeout, timeout_per_line * (len(chunk) + len(setup)))
@@ -164,6 +172,8 @@ def run_lines(exe, lines, timeout_per_line=0.05, min_timeout=30, setup=None, env
             cls = "short-output"
         else:
             cls = classify_death(rc, se)
+        if cls == "timeout":
+            TIMEOUT_BUDGET["left"] -= 1
         outs.extend(got[:n])
         outs.append("CRASH " + cls)
         crashes.append({"line": lines[pos + n][:2000], "class": cls, "stderr": se[-1500:]})
